@@ -45,6 +45,7 @@ type Task struct {
 	budget int64
 	dead   bool
 	spin   int64
+	parkSeq int64 // when it became runnable (FIFO fairness of the default choice)
 	quiet  bool // waiting for every other task to be blocked (Quiesce)
 	sim    *Sim
 }
@@ -59,13 +60,14 @@ type Config struct {
 	TimeRaceP  float64       // probability of letting timers up to RaceDelta ahead fire while tasks are runnable
 	RaceDelta  time.Duration
 	MaxIdle    time.Duration // longest single clock jump while nothing is runnable
+	MaxReal    time.Duration // real-time budget of one run (infrastructure limit)
 	TraceLimit int           // ring buffer of log lines kept for reports
 	Trace      bool          // keep the full log
 }
 
 func DefaultConfig() Config {
 	return Config{MaxSteps: 400000, Horizon: 10 * time.Minute, SwitchP: 0.2, PreemptP: 0.05, MaxBudget: 40,
-		TimeRaceP: 0.02, RaceDelta: 5 * time.Millisecond, MaxIdle: time.Hour, TraceLimit: 400}
+		TimeRaceP: 0.02, RaceDelta: 5 * time.Millisecond, MaxIdle: time.Hour, TraceLimit: 400, MaxReal: 90 * time.Second}
 }
 
 // PanicInfo records a task that panicked or tried to exit the process.
@@ -108,6 +110,7 @@ type Sim struct {
 	stop    bool
 	reason  string
 
+	parkCtr int64
 	ycount int64 // touched by the baton holder only
 	spins  int64
 
@@ -123,6 +126,13 @@ type Sim struct {
 	Probes    map[string]int
 	selSeed   uint64
 	T         *testing.T
+
+	guardOn    bool
+	guardDom   string
+	guardStart int
+	guardMax   int
+	GuardTrip  string
+	Guards     int
 }
 
 const spinLimit = 50000
@@ -172,6 +182,7 @@ func (t *Task) park(where string) {
 	s.mu.Lock()
 	t.state = stParked
 	t.where = where
+	t.parkSeq = 0 // assigned by the scheduler, in task-id order, once everybody is quiescent
 	if s.current == t {
 		s.current = nil
 		s.curGoid.Store(0)
@@ -368,6 +379,25 @@ func Unlock(unlock func()) {
 // Freeze makes the tasks of a domain unschedulable until Thaw.
 func (s *Sim) Freeze(domain string) { s.mu.Lock(); s.frozen[domain] = true; s.mu.Unlock() }
 func (s *Sim) Thaw(domain string)   { s.mu.Lock(); delete(s.frozen, domain); s.mu.Unlock() }
+
+// GuardBegin starts a boundedness window (C06, C17): the given domain is frozen and the
+// clock may not advance; if nothing else is runnable before GuardEnd, or more than
+// maxSteps scheduler steps pass, the operation in progress depends on that domain or on
+// time and the run ends with GuardTrip set.
+func (s *Sim) GuardBegin(domain string, maxSteps int) {
+	s.mu.Lock()
+	s.guardOn, s.guardDom, s.guardStart, s.guardMax = true, domain, s.St.Steps, maxSteps
+	s.frozen[domain] = true
+	s.Guards++
+	s.mu.Unlock()
+}
+
+func (s *Sim) GuardEnd() {
+	s.mu.Lock()
+	s.guardOn = false
+	delete(s.frozen, s.guardDom)
+	s.mu.Unlock()
+}
 
 // Kill marks every task of a group dead: a crashed incarnation.  Dead tasks are never scheduled again.
 func (s *Sim) Kill(group string) int {
@@ -566,15 +596,33 @@ func (s *Sim) DomainRunnable(domain string) bool {
 
 func (s *Sim) loop() {
 	idleNoProgress := 0
+	iter := 0
+	realStart := nowReal()
 	for {
 		synctest.Wait()
 		beat.Add(1)
+		iter++
+		if iter&1023 == 0 && s.Cfg.MaxReal > 0 && nowReal()-realStart > int64(s.Cfg.MaxReal) {
+			s.mu.Lock()
+			if s.InfraErr == "" {
+				s.InfraErr = fmt.Sprintf("run exceeded its real-time budget of %v (steps=%d sim=%v)", s.Cfg.MaxReal, s.St.Steps, time.Since(s.start))
+			}
+			s.mu.Unlock()
+			s.reason = "real-time budget"
+			return
+		}
 		s.mu.Lock()
 		if s.current != nil {
 			// the released task is durably blocked inside a real operation
 			s.current.state = stBlocked
 			s.current = nil
 			s.curGoid.Store(0)
+		}
+		for _, t := range s.tasks {
+			if t.state == stParked && t.parkSeq == 0 {
+				s.parkCtr++
+				t.parkSeq = s.parkCtr
+			}
 		}
 		run := s.runnable()
 		alive := 0
@@ -605,6 +653,15 @@ func (s *Sim) loop() {
 			s.reason = "horizon"
 			return
 		}
+		if s.guardOn && (len(run) == 0 || s.St.Steps-s.guardStart > s.guardMax) {
+			why := "no task outside the frozen domain can run and the clock is stopped"
+			if len(run) != 0 {
+				why = fmt.Sprintf("still pending after %d scheduler steps", s.guardMax)
+			}
+			s.GuardTrip = fmt.Sprintf("a hand-off did not complete while domain %q was frozen: %s\n%s", s.guardDom, why, s.Describe())
+			s.reason = "guard"
+			return
+		}
 		if len(run) == 0 {
 			// nothing runnable: let simulated time advance to the next timer
 			select {
@@ -631,7 +688,7 @@ func (s *Sim) loop() {
 			continue
 		}
 		idleNoProgress = 0
-		if s.Cfg.TimeRaceP > 0 && s.Sched.Bool(s.Cfg.TimeRaceP) {
+		if s.Cfg.TimeRaceP > 0 && !s.guardOn && s.Sched.Bool(s.Cfg.TimeRaceP) {
 			// a timer that is due very soon may fire before a runnable task proceeds
 			select {
 			case <-s.kick:
@@ -646,7 +703,13 @@ func (s *Sim) loop() {
 			s.St.TimeRaces++
 			continue
 		}
-		sort.Slice(run, func(i, j int) bool { return run[i].ID < run[j].ID })
+		// default order: the task that ran last (if it merely yielded), then the longest-waiting one
+		sort.Slice(run, func(i, j int) bool {
+			if run[i].parkSeq != run[j].parkSeq {
+				return run[i].parkSeq < run[j].parkSeq
+			}
+			return run[i].ID < run[j].ID
+		})
 		if s.last != nil {
 			for i, t := range run {
 				if t == s.last {
